@@ -220,6 +220,8 @@ class Gen:
             return ('list', tuple(self.leaf('ctx', env) for _ in range(r.choice([0, 1, 2]))))
         if kind == 'ctx':
             ks = sorted(r.sample([101, 102, 103], r.choice([1, 2, 2, 3])))
+            if r.random() < 0.2:
+                ks = [50] + ks            # an entry named `item`: the filter then pushes only the element's own context
             return ('ctx', tuple((k, self.num_lit() if r.random() < 0.7 else self.str_lit()) for k in ks))
         if kind == 'fun1':
             p = 108
@@ -405,15 +407,15 @@ class Gen:
     def g_lctx(self, d, env):
         r = self.rng
         if r.random() < 0.3:   # filter on contexts: entries visible as names
-            lst = self.leaf('lctx', env)
-            env2 = dict(env)
-            env2[101] = 'num'
-            return ('filter', lst, ('bin', r.choice(['Gt', 'Eq', 'Le']), ('name', 101), self.num_lit()))
+            lst = self.leaf('lctx', env) if r.random() < 0.7 else ('list', tuple(self.leaf('ctx', env) for _ in range(r.choice([1, 2, 3]))))
+            return ('filter', lst, ('bin', r.choice(['Gt', 'Eq', 'Le']), ('name', r.choice([101, 101, 50, 102])), self.num_lit()))
         return ('list', tuple(self.g_ctx(d - 1, env) for _ in range(r.choice([0, 1, 2, 3]))))
 
     def g_ctx(self, d, env):
         r = self.rng
         ks = sorted(r.sample([101, 102, 103, 104, 105, 106], r.choice([1, 2, 2, 3, 4, 5, 6])))
+        if r.random() < 0.15:
+            ks = [r.choice([50, 60])] + ks   # entries named `item` / `partial`
         env2 = dict(env)
         es = []
         for k in ks:
